@@ -1,6 +1,7 @@
 import MosnVerif.Lemmas.FilterComplete
 import MosnVerif.Gen.ProxyTerminate
 import MosnVerif.Lemmas.FilterInst
+import MosnVerif.Lemmas.FilterRegs
 /-!
 # C14 — stream filters run in order, and a denied request is never forwarded (property theorems only)
 
@@ -384,5 +385,154 @@ emptied and runs after a later update that adds a deny filter again — it is fo
 example : let p : Model.FilterInst.P := ⟨fun k => k != 7, fun _ => true, fun _ => 1, fun _ k => if k = 4 then some 403 else none, Gen.FilterFactories.updateFactory⟩
     (Model.FilterInst.exec p [.upd 0 [4], .upd 0 [7]]).st.chain 5 = none ∧
     (Model.FilterInst.exec p ([.upd 0 [4], .upd 0 [7]] ++ .create 5 0 :: [.upd 0 [4], .run 5])).st.out 5 = some ([], none) := by decide
+
+/-! ## c14r7 BEGIN — registrations: the chain is a list of (filter object, phase) pairs (`Model/FilterRegs.lean`)
+
+A factory may hand ONE filter object to `AddStreamReceiverFilter` several times — for several receive phases
+(pkg/filter/stream/dsl: BeforeRoute, AfterRoute, AfterChooseHost), in any order, with other objects' registrations in between —
+and to `AddStreamSenderFilter` too.  `regs : List Reg` is ANY list of such calls (repeated objects, arbitrary phase order);
+registration `i` decides by the script `sc i` (any verdict vector; for an object whose decisions are a function of
+(object, phase, invocation) see `toChainObj_eq_toChain`). -/
+section Registrations
+open MosnVerif.Model.FilterRegs
+
+/-- **registrations_kept** (regenerated `AddStreamReceiverFilter` / `AddStreamSenderFilter` bodies): after ANY sequence of
+registration calls the chain holds exactly these registrations, in call order — every call adds one, whether or not the
+object is in the chain already. -/
+theorem registrations_kept (regs : List Reg) (sobjs : List Nat) :
+    regsOf (build regs sobjs) = regs.map (fun r => (r.obj, phaseNum r.phase)) ∧
+    (build regs sobjs).senderFilters = sobjs ∧
+    (build regs sobjs).senderFiltersPhase = sobjs.map (fun _ => Gen.FilterRegs.BeforeSend) := by
+  refine ⟨regsOf_build regs sobjs, ?_, ?_⟩ <;> rw [build_eq]
+
+/-- **phase_test_is_equality** (regenerated test in front of the filter call of both run loops, whose shape — start at the
+cursor, advance by one, no break — the extractor checks): a registration is skipped iff its phase differs from the phase of
+the pass — what `recvLoop` of the model does; the only sender phase is BeforeSend, so a sender pass skips nothing. -/
+theorem phase_test_is_equality (a b : RPhase) :
+    Gen.FilterRegs.recvSkips (phaseNum a) (phaseNum b) = (a != b) ∧
+    Gen.FilterRegs.senderFilterPhaseValues = [Gen.FilterRegs.BeforeSend] ∧
+    Gen.FilterRegs.sendSkips Gen.FilterRegs.BeforeSend Gen.FilterRegs.BeforeSend = false := by
+  refine ⟨?_, rfl, rfl⟩
+  cases a <;> cases b <;> rfl
+
+/-- registration `i` of the list is filter `i` of the chain, with the phase it was registered for -/
+theorem registration_is_filter (regs : List Reg) (sc : Nat → List Verdict) (i : Nat) :
+    (toChain regs sc)[i]? = (regs[i]?).map (fun r => (⟨r.phase, sc i⟩ : RFilter)) := toChain_getElem? regs sc i
+
+/-- the filters of phase `p` of that chain are the registrations of phase `p`, in registration order -/
+theorem ofPhase_toChain (p : RPhase) (regs : List Reg) (sc : Nat → List Verdict) :
+    (ofPhase p (toChain regs sc) 0).map (·.1) = ((regs.zipIdx).filter (fun ri => ri.1.phase = p)).map (·.2) := by
+  have gen : ∀ (k : Nat), (ofPhase p ((regs.zipIdx k).map (fun ri => (⟨ri.1.phase, sc ri.2⟩ : RFilter))) k).map (·.1) =
+      ((regs.zipIdx k).filter (fun ri => ri.1.phase = p)).map (·.2) := by
+    induction regs with
+    | nil => intro k; simp [ofPhase]
+    | cons r rest ih =>
+      intro k
+      simp only [List.zipIdx_cons, List.map_cons, ofPhase, List.filter_cons]
+      by_cases h : r.phase = p
+      · simp [h, ih (k + 1)]
+      · simp [h, ih (k + 1)]
+  exact gen 0
+
+/-- **pass_runs_exactly_registrations**: one `RunReceiverFilter(p)` call from the first filter on — whatever the state of the
+stream, whatever the filters do on their handlers — invokes exactly the registrations of phase `p`, in registration order,
+each once, up to and including the first whose status does not let the chain go on (Stop, termination, re-match, re-choose). -/
+theorem pass_runs_exactly_registrations (regs : List Reg) (sc : Nat → List Verdict) (p : RPhase) (s : FState)
+    (h0 : s.cursor = 0) :
+    (runRecv (toChain regs sc) p s).2 = cutAfter s.rcalls (ofPhase p (toChain regs sc) 0) := by
+  rw [runRecv_invs, startOf_eq, h0]; simp
+
+/-- … and when they all let the chain go on, every registration of the phase is invoked -/
+theorem cutAfter_all (calls : Nat → Nat) (l : List (Nat × RFilter))
+    (h : ∀ x ∈ l, continues (x.2.verdictAt (calls x.1)).status = true) : (cutAfter calls l).map (·.1) = l.map (·.1) := by
+  induction l with
+  | nil => rfl
+  | cons x r ih =>
+    obtain ⟨i, f⟩ := x
+    have hx := h (i, f) (by simp)
+    simp only [cutAfter, hx, if_true, List.map_cons]
+    rw [ih (fun y hy => h y (List.mem_cons_of_mem _ hy))]
+
+/-- **runs_exactly_registrations**: for every registration list (repeated objects, arbitrary phase order), every script per
+registration, every sender chain and environment, at every point of the run of a request: each receiver pass is the exact
+run of the registrations of its phase from its start cursor — none skipped, none twice, none of another phase, cut only by a
+status that does not continue.  (Which passes there are and where they start — phases in the proxy's order, from the first
+filter, resumed at the asking filter after an honoured re-match / re-choose — is `complete` / `resume`, which hold of this
+chain as of any.) -/
+theorem runs_exactly_registrations (regs : List Reg) (sc : Nat → List Verdict) (send : List SFilter) (env : Env) (n : Nat)
+    (p : RPhase) (st : Nat) (invs : List Inv)
+    (h : Ev.rpass p st invs ∈ (run ⟨toChain regs sc, send, env⟩ n init).trace) :
+    ∃ calls, invs = cutAfter calls (ofPhase p ((toChain regs sc).drop st) st) :=
+  run_PassesExact ⟨toChain regs sc, send, env⟩ n init (init_PassesExact _) p st invs h
+
+/-- **deny_not_forwarded_registration**: the denying invocation may come through ANY registration of an object — the second
+or third phase it registered for as well: it is a registration of the list for the phase of the pass, and the request is
+neither sent upstream nor handed to the retry path. -/
+theorem deny_not_forwarded_registration (regs : List Reg) (sc : Nat → List Verdict) (send : List SFilter) (env : Env) (n : Nat)
+    (p : RPhase) (st : Nat) (invs : List Inv) (iv : Inv)
+    (h : Ev.rpass p st invs ∈ (run ⟨toChain regs sc, send, env⟩ n init).trace) (hiv : iv ∈ invs) (hd : iv.2.isDeny = true) :
+    (∃ r, regs[iv.1]? = some r ∧ r.phase = p) ∧
+    (∀ e ∈ (run ⟨toChain regs sc, send, env⟩ n init).trace, ∀ r, e ≠ Ev.up r) ∧
+    (run ⟨toChain regs sc, send, env⟩ n init).retried = false := by
+  refine ⟨?_, deny_not_forwarded ⟨toChain regs sc, send, env⟩ n p st invs iv h hiv hd⟩
+  obtain ⟨f, hf, hp⟩ := (order ⟨toChain regs sc, send, env⟩ n p st invs h).2 iv hiv
+  have hf' : (toChain regs sc)[iv.1]? = some f := hf
+  rw [toChain_getElem?] at hf'
+  cases hr : regs[iv.1]? with
+  | none => rw [hr] at hf'; cases hf'
+  | some r =>
+    rw [hr] at hf'
+    simp only [Option.map_some, Option.some.injEq] at hf'
+    exact ⟨r, rfl, by rw [← hp, ← hf']⟩
+
+/-- an object whose decisions are a function of (object, phase, invocation) — one script per pair — is the special case in
+which every registration of the pair carries that script -/
+theorem toChainObj_eq_toChain (regs : List Reg) (sc : Nat → RPhase → List Verdict) :
+    toChainObj regs sc = toChain regs (fun i => match regs[i]? with | some r => sc r.obj r.phase | none => []) := by
+  apply List.ext_getElem?
+  intro i
+  rw [toChain_getElem?]
+  simp only [toChainObj, List.getElem?_map]
+  cases regs[i]? <;> rfl
+
+/-- **destroy_once_per_registration** (regenerated `OnDestroy`: a range over each slice): when the stream is cleaned an object
+gets one `OnDestroy` call per registration it made, receiver and sender — what the code does; a filter registered for
+three phases must tolerate three calls. -/
+theorem destroy_once_per_registration (regs : List Reg) (sobjs : List Nat) (o : Nat) :
+    (Gen.FilterRegs.onDestroy (build regs sobjs)).count o = destroyCount regs sobjs o := destroy_count regs sobjs o
+
+/-! non-vacuity: an auth filter that pre-checks before the route is matched and decides after it (one object, two phases) -/
+
+def exAuth : List Reg := [⟨7, .BeforeRoute⟩, ⟨3, .AfterRoute⟩, ⟨7, .AfterRoute⟩, ⟨7, .AfterChooseHost⟩]
+def exAuthSc : Nat → List Verdict := fun i => if i = 2 then [⟨.hijack 403 false, .Stop⟩] else []
+
+example : regsOf (build exAuth [7, 7]) = [(7, 0), (3, 1), (7, 1), (7, 2)] ∧ destroyCount exAuth [7, 7] 7 = 5 := by decide
+
+/-- the object's verdict in its SECOND phase denies the request: nothing is sent upstream -/
+example : trace ⟨toChain exAuth exAuthSc, [], envOK⟩ =
+    [.rpass .BeforeRoute 0 [(0, {})],
+     .rpass .AfterRoute 0 [(1, {}), (2, ⟨.hijack 403 false, .Stop⟩)],
+     .spass 0 [], .dh (some 403) true] := by decide +kernel
+
+example : Ev.rpass .AfterRoute 0 [(1, {}), (2, ⟨.hijack 403 false, .Stop⟩)] ∈
+    (run ⟨toChain exAuth exAuthSc, [], envOK⟩ fuel init).trace ∧
+    [(1, ({} : Verdict)), (2, ⟨.hijack 403 false, .Stop⟩)] =
+      cutAfter (fun _ => 0) (ofPhase .AfterRoute ((toChain exAuth exAuthSc).drop 0) 0) := by
+  constructor
+  · decide +kernel
+  · decide
+
+/-- **negation witness (the seeded shape)**: an `Add…` that skips an object already in the chain keeps only the object's
+FIRST phase — the registration list is not kept … -/
+example : regsOf (buildWith addDedup exAuth) = [(7, 0), (3, 1)] ∧
+    regsOf (buildWith addDedup exAuth) ≠ exAuth.map (fun r => (r.obj, phaseNum r.phase)) := by decide
+
+/-- … and on that chain the verdict of the later phase never happens: the request the filter denies is forwarded -/
+example : trace ⟨toChain [⟨7, .BeforeRoute⟩, ⟨3, .AfterRoute⟩] (fun i => if i = 1 then [] else exAuthSc 0), [], envOK⟩ =
+    [.rpass .BeforeRoute 0 [(0, {})], .rpass .AfterRoute 0 [(1, {})], .rpass .AfterChooseHost 0 [],
+     .up false, .spass 0 [], .dh (some 200) false, .dd true] := by decide +kernel
+
+end Registrations
+/-! ## c14r7 END -/
 
 end MosnVerif.Props.C14
